@@ -5,6 +5,7 @@ scenario = {'ports': [{'id': 'p0', 'kind': K, 'value': v}], 'script': [cmd...]}
   K: 'hint' (harness number port, integer), 'hnum' (harness number port), 'hbool' (harness boolean port),
      'vint' / 'vnum' / 'vbool' (the hub's own qtoggleserver.core.vports.VirtualPort)
   port spec may carry 'internal': true (the `internal` attribute of the port)
+  and 'twrite': text (a write transform, set through set_attr before anything else)
   cmd: ['expr', pid, text]   assign a value expression through set_attr (text '' removes it)
        ['expr-in-handler', pid, text, src, value]   the device behind harness port `src` now shows `value`; while a synchronous
                              (FIRE_AND_FORGET = False) event handler is busy with the value-change event of `src`, i.e. in the
@@ -12,6 +13,8 @@ scenario = {'ports': [{'id': 'p0', 'kind': K, 'value': v}], 'script': [cmd...]}
        ['set', pid, value]   the device behind a harness port now shows `value` (None = unavailable);
                              for a virtual port: the value is written through the hub (transform_and_write_value)
        ['disable', pid] / ['enable', pid]      (only ports without an expression)
+       ['readd', pid, value]  a virtual port without expression is disabled, removed, created again under the same id,
+                             enabled and given `value`
   after every command the hub runs polling passes until nothing changes any more (no latencies in this stream).
 result = {'ports': [[id, kind, enabled, last_read_value, expression text or None]], 'quiescent': bool, 'error': str or None}
 values are encoded as {'b': bool} | {'i': str} | {'f': hex} | None.
@@ -138,12 +141,28 @@ async def run_scenario(sc):
         if not ps['kind'].startswith('h') and ps.get('internal'):
             await by_id[ps['id']].set_attr('internal', True)
     for ps in sc['ports']:
+        if ps.get('twrite'):
+            await by_id[ps['id']].set_attr('transform_write', ps['twrite'])
+    for ps in sc['ports']:
         if not ps['kind'].startswith('h') and ps['value'] is not None:
             await by_id[ps['id']].transform_and_write_value(dec(ps['value']))
 
+    # an evaluation task is busy from the moment it takes a context until _eval_and_write returns (between the evaluation and
+    # the queued write none of the port's own flags is set)
+    in_eaw = [0]
+    orig_eaw = core_ports.BasePort._eval_and_write
+
+    async def eaw_wrapper(self, context):
+        in_eaw[0] += 1
+        try:
+            return await orig_eaw(self, context)
+        finally:
+            in_eaw[0] -= 1
+    core_ports.BasePort._eval_and_write = eaw_wrapper
+
     def busy():
         return [p.get_id() for p in ports
-                if p._eval_queue.qsize() or p._evaling or p._write_value_queue.qsize() or p._writing]
+                if p._eval_queue.qsize() or p._evaling or p._write_value_queue.qsize() or p._writing] + (['*'] if in_eaw[0] else [])
 
     async def settle():
         """passes until a pass changes nothing and no task is busy"""
@@ -178,6 +197,18 @@ async def run_scenario(sc):
                     p.store = v
                 else:
                     await p.transform_and_write_value(v)
+            elif op == 'readd':
+                idx = ports.index(p)
+                await p.disable()
+                await settle()
+                await p.remove(persisted_data=False)
+                await settle()
+                new = (await core_ports.load([args[idx]], trigger_add=False))[0]
+                ports[idx] = new
+                by_id[cmd[1]] = new
+                await new.enable()
+                if cmd[2] is not None:
+                    await new.transform_and_write_value(dec(cmd[2]))
             elif op == 'disable':
                 await p.disable()
             elif op == 'enable':
@@ -195,7 +226,8 @@ async def run_scenario(sc):
     out = []
     for p in ports:
         e = p.get_expression()
-        out.append([p.get_id(), kinds[p.get_id()], p.is_enabled(), enc(p.get_last_read_value()), str(e) if e else None])
+        out.append([p.get_id(), kinds[p.get_id()], p.is_enabled(), enc(p.get_last_read_value()), str(e) if e else None,
+                    str(p._transform_write) if p._transform_write else None])
     for p in ports:
         for t in (p._write_value_task, p._eval_task):
             if t is not None and not t.done():
@@ -203,6 +235,7 @@ async def run_scenario(sc):
     await asyncio.sleep(0)
     core_ports._ports_by_id.clear()
     events_handlers._registered_handlers[:] = []
+    core_ports.BasePort._eval_and_write = orig_eaw
     return {'ports': out, 'quiescent': quiescent, 'error': error, 'armed_left': len(armed)}
 
 
